@@ -183,7 +183,12 @@ pub fn run(ctx: &Ctx) -> usize {
     let hb1 = sh.as_ref().and_then(|s| catch_iso(|| idx(s.get_avoids()))).unwrap_or(vec![-998]);
     let ha2 = lh.as_ref().and_then(|s| catch_iso(|| idx(s.get_recommends()))).unwrap_or(vec![-998]);
     let hb2 = lh.as_ref().and_then(|s| catch_iso(|| idx(s.get_avoids()))).unwrap_or(vec![-998]);
-    sink.put(Ev::new("via").i("s", 0).i("j", j).i("hh", hh).a("wg", &want_g).a("g1", &g1).a("g2", &g2).a("wa", &want_a).a("a1", &a1).a("a2", &a2).a("wb", &want_b).a("b1", &b1).a("b2", &b2)
+    // third route for the DAY lists: the lunar day handed out by the LunarHour after the hour has been asked its own views
+    let hld = lh.as_ref().and_then(|h| catch_iso(|| h.get_lunar_day()));
+    let g3: Vec<i64> = hld.as_ref().and_then(|l| catch_iso(|| l.get_gods().iter().map(|g| g.get_index() as i64).collect())).unwrap_or(vec![-998]);
+    let a3 = hld.as_ref().and_then(|l| catch_iso(|| idx(l.get_recommends()))).unwrap_or(vec![-998]);
+    let b3 = hld.as_ref().and_then(|l| catch_iso(|| idx(l.get_avoids()))).unwrap_or(vec![-998]);
+    sink.put(Ev::new("via").i("s", 0).i("j", j).i("hh", hh).a("g3", &g3).a("a3", &a3).a("b3", &b3).a("wg", &want_g).a("g1", &g1).a("g2", &g2).a("wa", &want_a).a("a1", &a1).a("a2", &a2).a("wb", &want_b).a("b1", &b1).a("b2", &b2)
       .a("wha", &want_ha).a("ha1", &ha1).a("ha2", &ha2).a("whb", &want_hb).a("hb1", &hb1).a("hb2", &hb2).done());
   }
   // kitchen god
